@@ -33,13 +33,11 @@ open Ffcx.LNodes
 
 /-! ## exact decimal / binary arithmetic -/
 
-def p10 : Nat → Rat
-  | 0 => 1
-  | n + 1 => 10 * p10 n
+/-- `10^n` (through `Nat.pow`, which the compiler and the kernel evaluate with GMP) -/
+def p10 (n : Nat) : Rat := ((10 ^ n : Nat) : Rat)
 
-def p2 : Nat → Rat
-  | 0 => 1
-  | n + 1 => 2 * p2 n
+/-- `2^n` -/
+def p2 (n : Nat) : Rat := ((2 ^ n : Nat) : Rat)
 
 /-- `10^e` for an integer exponent -/
 def p10i (e : Int) : Rat := if 0 ≤ e then p10 e.toNat else 1 / p10 (-e).toNat
